@@ -618,6 +618,16 @@ pois_impl!(<'w> TX<'w>, "Poisonable<Retrying<Vec<AnyX>>>", x);
 pois_impl!(<'w> OW, "Poisonable<Owned<Vec<RwLock>>>", rw);
 
 // ---- native container shapes (happylock's own tuple / array / Vec / boxed-slice impls) ----
+/// A zero-sized lockable member placed at the same address as the first of three locks (offset 0 of one block).
+#[repr(C)]
+pub struct ZBlock {
+	pub z: OwnedLockCollection<[R; 0]>,
+	pub locks: [R; 3],
+}
+pub type ZTup<'w> = (&'w OwnedLockCollection<[R; 0]>, &'w R, &'w R, &'w R);
+coll_impl!(<'w> BoxedLockCollection<ZTup<'w>>, "Boxed<(&Owned<[;0]>,&RwLock,&RwLock,&RwLock)>", rw);
+coll_impl!(<'w> RefLockCollection<'w, ZTup<'w>>, "Ref<(&Owned<[;0]>,&RwLock,&RwLock,&RwLock)>", rw);
+coll_impl!(<'w> RetryingLockCollection<ZTup<'w>>, "Retrying<(&Owned<[;0]>,&RwLock,&RwLock,&RwLock)>", rw);
 coll_impl!(<'w> BoxedLockCollection<[&'w R; 3]>, "Boxed<[&RwLock;3]>", rw);
 coll_impl!(<'w> RefLockCollection<'w, [&'w R; 3]>, "Ref<[&RwLock;3]>", rw);
 coll_impl!(<'w> RetryingLockCollection<[&'w R; 3]>, "Retrying<[&RwLock;3]>", rw);
